@@ -146,6 +146,14 @@ def describe_diff(a, b, path="arg"):
     return "%s: changed" % path
 
 
+TENSOR_OBJECTS = {"CPTensor", "TuckerTensor", "TTTensor", "TRTensor", "TTMatrix", "Parafac2Tensor"}
+# methods that document changing the object they are called on (and when): normalize() unless inplace=False is asked for, mode_dot with
+# copy=False (TuckerTensor's default), item assignment, construction
+SELF_MUTATORS = {"normalize": lambda cls, kw: bool(kw.get("inplace", True)),
+                 "mode_dot": lambda cls, kw: not kw.get("copy", cls == "CPTensor"),
+                 "__setitem__": lambda cls, kw: True, "__init__": lambda cls, kw: True}
+
+
 # ------------------------------------------------------------------------------------------------------------
 def make_sanitizer(qualname, is_method=False):
     short = qualname.split(".")[-1]
@@ -189,6 +197,11 @@ def make_sanitizer(qualname, is_method=False):
             kwv = dict(flat)
             for pname, val in flat.items():
                 if is_method and pname == "self":
+                    # the object a method is called on is the caller's too, unless the method is one that documents changing it
+                    mut = SELF_MUTATORS.get(short)
+                    if type(val).__name__ not in TENSOR_OBJECTS or (mut is not None and mut(type(val).__name__, kwv)):
+                        continue
+                    watched[pname] = (val, snap(val))
                     continue
                 if not mutable(val):
                     continue
@@ -255,6 +268,18 @@ def setup_worker(ctx, tier, seed):
         for meth in ("fit", "predict", "transform", "fit_transform", "score"):
             f = cls.__dict__.get(meth)
             if isinstance(f, types.FunctionType):
+                setattr(cls, meth, make_sanitizer("%s.%s" % (cls.__name__, meth), is_method=True)(f))
+                n_funcs += 1
+    # the factorised-tensor objects' own public methods (the object itself is a caller-owned argument of the non-mutating ones)
+    from tensorly.cp_tensor import CPTensor as _CP
+    from tensorly.tucker_tensor import TuckerTensor as _TK
+    from tensorly.tt_tensor import TTTensor as _TT
+    from tensorly.tr_tensor import TRTensor as _TR
+    from tensorly.tt_matrix import TTMatrix as _TTM
+    from tensorly.parafac2_tensor import Parafac2Tensor as _P2
+    for cls in (_CP, _TK, _TT, _TR, _TTM, _P2):
+        for meth, f in list(cls.__dict__.items()):
+            if isinstance(f, types.FunctionType) and not meth.startswith("_"):
                 setattr(cls, meth, make_sanitizer("%s.%s" % (cls.__name__, meth), is_method=True)(f))
                 n_funcs += 1
     ctx.count("functions_wrapped", n_funcs)
@@ -635,6 +660,11 @@ def own(g, rs, ctx):
             from tensorly.tr_tensor import TRTensor
             cp = CPTensor((w_ := rs.uniform(0.5, 2, R), [argkind(rs, rs.standard_normal((s_, R)), ctx) for s_ in shp]))
             cp.to_tensor(); cp.to_vec(); cp.to_unfolded(1); cp.norm(); cp.mode_dot(rs.standard_normal((2, shp[0])), 0)
+            cp.cp_copy()
+            ncp = cp.normalize(inplace=False)       # documented: "if False, returns a normalized copy"
+            ctx.count("own/normalize_inplace_false")
+            if not (hasattr(ncp, "factors") and all(np.allclose(np.linalg.norm(np.asarray(f_), axis=0), 1) for f_ in ncp.factors)):
+                ctx.violation("C15:normalize:returns-copy:inplace-false", "CPTensor.normalize(inplace=False) returned %s instead of a normalised copy" % type(ncp).__name__, {"entry": "CPTensor.normalize"})
             rk = [min(2, s_) for s_ in shp]
             tk = TuckerTensor((argkind(rs, rs.standard_normal(rk), ctx), [argkind(rs, rs.standard_normal((s_, r_)), ctx) for s_, r_ in zip(shp, rk)]))
             tk.to_tensor(); tk.to_vec(); tk.to_unfolded(0); tk.mode_dot(rs.standard_normal((2, shp[1])), 1)
